@@ -1,7 +1,12 @@
 import Driver.Util
 import Driver.RtCompat
+import Driver.DeclPy
 import Driver.IrCheck
 import Driver.DeclStub
+import Driver.DeclJs
+import Driver.DeclPyClient
+import Driver.Order
+import Driver.DeclSwift
 /-! Protocol handlers of the `decl.*` suites. -/
 open Lean
 namespace Driver.Decl
@@ -10,12 +15,27 @@ def handle (op : String) (j : Json) : Except String Json := do
   -- BEGIN C07: `decl.compat.*` (two-environment ops, Driver/RtCompat.lean)
   if op.startsWith "decl.compat." then return ← Driver.RtCompat.handle op j
   -- END C07
+  -- BEGIN C09: `decl.py.*` (Driver/DeclPy.lean)
+  if op.startsWith "decl.py." then return ← Driver.DeclPy.handle op j
+  -- END C09
   -- BEGIN C10: `decl.ircheck.*` (Driver/IrCheck.lean)
   if op.startsWith "decl.ircheck." then return ← Driver.IrCheck.handle op j
   -- END C10
   -- BEGIN C15: `decl.stub.*` (Driver/DeclStub.lean)
   if op.startsWith "decl.stub" then return ← Driver.DeclStub.handle op j
   -- END C15
+  -- BEGIN C16: `decl.js.*` / `decl.tsd.*` (Driver/DeclJs.lean)
+  if op.startsWith "decl.js." || op.startsWith "decl.tsd." then return ← Driver.DeclJs.handle op j
+  -- END C16
+  -- BEGIN C14: `decl.pyclient.*` (Driver/DeclPyClient.lean)
+  if op.startsWith "decl.pyclient." then return ← Driver.DeclPyClient.handle op j
+  -- END C14
+  -- BEGIN C12: `decl.order.*` (Driver/Order.lean)
+  if op.startsWith "decl.order." then return ← Driver.Order.handle op j
+  -- END C12
+  -- BEGIN C17: `decl.swift.*` / `decl.objc.*` (Driver/DeclSwift.lean)
+  if op.startsWith "decl.swift." || op.startsWith "decl.objc." then return ← Driver.DeclSwift.handle op j
+  -- END C17
   throw s!"unknown op {op}"
 
 end Driver.Decl
